@@ -189,16 +189,21 @@ def enc_big_jobs():
                         sym="payload bytes (nondeterministic heap contents; one symbolic index compared), timestamps, version, device/stream id, counter start",
                         outside="frames beyond 9000 bytes (array copies of n bytes cost CBMC O(n) recursion depth and superlinear memory: 8000 bytes take 80 s, 20000 exhaust 11 GB; the 16-bit boundary at 65536+ is out of reach); byte-by-byte comparison of whole payloads (one symbolic sampled index of the first packet instead); message header fields other than the declared length"))
     # 64 KiB frames: the 16-bit boundaries of payload length (65535) and frame size (65535 + 24). Copies transfer a 48-byte
-    # prefix only (rt/vp_rt.h VP_MEM_PREFIX; whole regions are still checked for accessibility), so sizes, tiling, headers,
-    # counters and the first 32 payload bytes are decided, not the remaining contents.
+    # prefix only (rt/vp_rt.h VP_MEM_PREFIX; whole regions are still checked for accessibility), wire-header accesses are
+    # emitted bytewise (ll2c --bytewise-wire) and the query goes to Z3 through CBMC's SMT2 back end (native array theory):
+    # with the SAT back end the Ackermann expansion over 64 KiB arrays exhausts 18 GB. Sizes, tiling, headers, counters and
+    # the first 24 payload bytes are decided, not the remaining contents.
     huge = [(enc_shape([65535], maxb=65559), "quick"), (enc_shape([65535], maxb=65558), "quick"), (enc_shape([65535], maxb=65536), "thorough"), (enc_shape([65535], maxb=65537), "thorough"),
             (enc_shape([65535], maxb=65535), "thorough"), (enc_shape([65534], maxb=65558), "thorough"), (enc_shape([65512], maxb=65536), "quick"), (enc_shape([65513], maxb=65536), "thorough"),
-            (enc_shape([8, 65500], maxb=65559), "quick"), (enc_shape([8, 65535], maxb=65559), "thorough"), (enc_shape([65535, 8], maxb=65559), "thorough"), (enc_shape([40000, 40000], maxb=65559), "thorough"),
+            (enc_shape([8, 65500], maxb=65559), "thorough"), (enc_shape([8, 65535], maxb=65559), "thorough"), (enc_shape([65535, 8], maxb=65559), "thorough"), (enc_shape([40000, 40000], maxb=65559), "thorough"),
             (enc_shape([65535], maxb=32768), "thorough"), (enc_shape([65535], maxb=65559, minb=65559), "thorough"), (enc_shape([100], maxb=65559, minb=65540), "quick"), (enc_shape([70], maxb=65559, minb=65536), "thorough")]
-    for d, tier in (huge if os.environ.get("VP_HUGE") else []):   # not yet tractable: see DESIGN section 7
-        dd = dict(d, HUGE=32)
-        jobs.append(Job("enc.cpp", "h_enc_big", defs=dd, cdefs={"VP_MEM_PREFIX": 48}, ll2c_opts=["--bytewise-wire"], unwind=50, tier=tier, in_max=64, mem_gb=8,
-                        sym="timestamps, version, device/stream id, counter start, the first 32 payload bytes of the first packet (one symbolic index compared)",
+    if os.environ.get("VP_HUGE_SHAPE"):
+        huge = [(enc_shape([int(x) for x in os.environ["VP_HUGE_SHAPE"].split(":")[0].split(",")], maxb=int(os.environ["VP_HUGE_SHAPE"].split(":")[1])), "quick")]
+    for d, tier in huge:
+        plain = bool(os.environ.get("VP_HUGE_PLAIN"))
+        dd = dict(d) if plain else dict(d, HUGE=24)
+        jobs.append(Job("enc.cpp", "h_enc_big", defs=dd, cdefs={} if plain else {"VP_MEM_PREFIX": 48}, ll2c_opts=[] if plain else ["--bytewise-wire"], extra=["--z3"], unwind=50, tier=tier, in_max=64, mem_gb=8,
+                        sym="timestamps, version, device/stream id, counter start, the first 24 payload bytes of the first packet (one symbolic index compared)",
                         outside="payload and padding contents beyond the first 48 bytes of each copy (copies are cut to a prefix in this mode; region accessibility is still checked); message header fields other than the declared length"))
     return jobs
 
